@@ -152,6 +152,25 @@ def table_changes(table, held, snap):
     return out
 
 
+def alias_addrs(case):
+    """(audit E) Which dict OBJECT sits at every position of the caller's list. Normally `0 … n-1` (all distinct).
+    With `case["alias"]` every EMPTY dict below the highest order is one and the same object (`d = {}; [d, d, top]`,
+    `[{}] * 2 + [top]`): only an empty dict can stand for two orders of a valid table. Computed from the case's
+    current dicts, so it stays meaningful while a case is shrunk. Never together with a destructive construction
+    (outside the check: the real code then edits the shared object while iterating over it, RuntimeError)."""
+    n = len(case["dicts"])
+    addrs = list(range(n))
+    ctors = [case.get("ctor", "positional")] + [st["ctor"] for st in case.get("steps", [])]
+    if case.get("alias") and not any(is_destructive(c) for c in ctors):
+        first = None
+        for i, d in enumerate(case["dicts"][:-1]):
+            if not d:
+                if first is None:
+                    first = i
+                addrs[i] = first
+    return addrs
+
+
 def step_hist(case, sos_k):
     """The case's history for a model with start symbol `sos_k`: tokens that are neither vocabulary ids nor
     `sos_k` (the first model's out-of-vocabulary start symbol) become `sos_k`."""
@@ -512,6 +531,8 @@ class C06(PropertyCheck):
         # 1c. ONE table object, several models: the caller's table must survive every non-destructive construction
         # and every model built from it must be the model of the table the caller holds at that moment
         yield from self.reuse_stream(rng, tier)
+        # 1d. (audit E) one empty dict object at several positions of the table, non-destructive constructions
+        yield from self.alias_stream(rng, tier)
         # (order: the small complete streams first - layouts, ARPA option grid, malformed, sizes - so that a slow
         # machine's time budget can only cut into the random bulk, never into a whole class of input)
         # 4b. memory layouts of the history tensor: every kind of view x order x batch width, T >= 3
@@ -665,6 +686,33 @@ class C06(PropertyCheck):
                             c["steps"][0]["ctor"] = "destructive"
                         yield c
 
+    def alias_stream(self, rng, tier):
+        """(audit E) The caller put ONE (empty) dict object at several positions of the table - `[{}] * 2 + [top]`,
+        `[uni, d, d, top]`. A non-destructive construction copies the table first (the copies are distinct objects):
+        it must build the model of the table, leave the shared object empty, and a second construction from the same
+        table object must work as well. (destructive=True on such a table is outside the check: the code edits the
+        shared object while it iterates over it - RuntimeError, see design_notes/C06.md - and theorems
+        C06_build_result / C06_build_consumed are stated for pairwise distinct dict objects.)"""
+        for rep in range(1 if tier == "quick" else 4):
+            for N, with_uni in ((3, False), (4, False), (4, True), (5, True)):
+                for sos_out in (False, True):
+                    V = rng.choice((2, 3))
+                    sos = -1 if sos_out else rng.randrange(V)
+                    toks = list(range(V)) + ([sos] if sos_out else [])
+                    top = {}
+                    for _ in range(rng.randrange(1, 5)):
+                        k = tuple(rng.choice(toks) for _ in range(N))
+                        top[k] = {"key": list(k), "logp": grid(rng)}
+                    uni = [{"key": [t], "logp": grid(rng), "logb": nz_grid(rng)} for t in toks if rng.random() < 0.7]
+                    dicts = [uni if with_uni else []] + [[] for _ in range(N - 2)] + [list(top.values())]
+                    c = std_case(rng, V, sos, N, rng.randrange(1, 5), rng.randrange(1, 3), dicts, p_sos=0.3)
+                    c["alias"] = True
+                    c["ctor"] = rng.choice(CTORS[:4])
+                    # (std_case may have drawn random later constructions, destructive ones included: replace them)
+                    c["steps"] = [{"sos": rng.choice((sos, -1, rng.randrange(V))), "ctor": rng.choice(CTORS[:4])}] \
+                        if rng.random() < 0.6 else []
+                    yield c
+
     def size_case(self, rng, V, sos, what):
         shift = 0 if 0 <= sos < V else 1
         toks = list(range(V)) + ([sos] if shift else [])
@@ -724,6 +772,7 @@ class C06(PropertyCheck):
             warnings.simplefilter("ignore")
             # ---- the caller's table, handed to every construction of the case (never rebuilt in between)
             table = to_prob_dicts(case["dicts"])
+            table = [table[a] for a in alias_addrs(case)]     # one dict object may sit at several positions
             held = list(table)
             plan = [(sos, case.get("ctor", "positional"))] + [(s["sos"], s["ctor"]) for s in case.get("steps", [])]
             built = []
@@ -1064,6 +1113,9 @@ class C06(PropertyCheck):
         if view is not None:
             req["view"] = view
         req["destructive"] = is_destructive(case.get("ctor", "positional"))
+        addrs = alias_addrs(case)
+        if addrs != list(range(len(addrs))):
+            req["addrs"] = addrs
         req["steps"] = [{"sos": st["sos"], "destructive": is_destructive(st["ctor"]), "hist": step_hist(case, st["sos"])}
                         for st in case.get("steps", [])]
         return {"op": "c06.table", "case": req}
@@ -1410,6 +1462,8 @@ class C06(PropertyCheck):
         t.append("layout=" + (case.get("layout") or {}).get("kind", "contig"))
         t.append("hist_dtype=" + case.get("hist_dtype", "int64"))
         t.append("ctor=" + case.get("ctor", "positional"))
+        if alias_addrs(case) != list(range(len(case["dicts"]))):
+            t.append("table:one_dict_object_at_several_positions")
         t.append("reload=" + case.get("reload", "serialised"))
         t.append("prev=" + ("passed" if case.get("pass_prev") else "default"))
         steps = case.get("steps", [])
@@ -1475,6 +1529,8 @@ class C06(PropertyCheck):
             yield dict(case, reload="serialised")
         if case.get("pass_prev"):
             yield dict(case, pass_prev=False)
+        if case.get("alias"):
+            yield {k: v for k, v in case.items() if k != "alias"}
         steps = case.get("steps", [])
         if steps:
             yield {k: v for k, v in case.items() if k != "steps"}
